@@ -119,6 +119,8 @@ let defaults = [
   "b_nil", 2;
   (* exceptions and environments / frames / heap *)
   "id_catchcap", 0; "id_tempcall", 0;
+  (* for-in loops: idiom family, and percent of the random loops that are for-in loops *)
+  "id_forin", 0; "forin", 35;
 ]
 
 let profiles = [
@@ -127,27 +129,27 @@ let profiles = [
             "t_int", 80; "t_rec", 3; "t_arr", 3; "t_fun", 2; "i_call", 6; "catch", 15];
   "order", ["id_order", 100; "id_repeat", 3; "print", 25; "i_assign", 12; "i_call", 20; "it_print", 15;
             "b_andor", 30; "depth", 4; "fault", 3];
-  "alias", ["id_alias", 100; "id_repeat", 4; "i_var", 50; "it_assign", 40; "it_var", 35; "it_let", 25;
+  "alias", ["id_forin", 25; "id_alias", 100; "id_repeat", 4; "i_var", 50; "it_assign", 40; "it_var", 35; "it_let", 25;
             "t_rec", 18; "t_arr", 18; "varparam", 50; "dump", 95; "i_cond", 14; "i_assign", 10; "nrecs_max", 3;
             "x_var", 60; "i_block", 6];
-  "closure", ["id_siblings", 55; "id_catchcap", 55; "id_tempcall", 55; "sib_fwd", 45; "b_nil", 5; "id_deepcap", 75; "id_shadow3", 45; "id_counter", 70; "id_adder", 50; "id_loopcap", 40; "id_reccap", 50; "id_compose", 40;
+  "closure", ["id_forin", 60; "id_siblings", 55; "id_catchcap", 55; "id_tempcall", 55; "sib_fwd", 45; "b_nil", 5; "id_deepcap", 75; "id_shadow3", 45; "id_counter", 70; "id_adder", 50; "id_loopcap", 40; "id_reccap", 50; "id_compose", 40;
               "it_func", 22; "t_fun", 25; "i_fcall", 18; "i_applam", 6; "rf_fun", 30; "nfuncs_max", 4;
               "depth", 3; "dump", 70];
-  "shadow", ["id_siblings", 45; "id_catchcap", 20; "sib_fwd", 45; "shadow", 65; "id_shadow", 80; "id_shadow2", 60; "id_shadow3", 85; "id_deepcap", 35; "it_func", 16; "it_let", 30; "it_var", 30; "i_block", 10;
+  "shadow", ["id_forin", 30; "id_siblings", 45; "id_catchcap", 20; "sib_fwd", 45; "shadow", 65; "id_shadow", 80; "id_shadow2", 60; "id_shadow3", 85; "id_deepcap", 35; "it_func", 16; "it_let", 30; "it_var", 30; "i_block", 10;
              "i_applam", 6; "t_fun", 14; "dump", 80; "block_items", 3; "i_fcall", 10; "catch", 15];
-  "loops", ["id_tempcall", 25; "it_loop", 30; "i_loop", 4; "id_loopcap", 20; "main_items", 6; "dump", 80; "fault", 4;
+  "loops", ["id_forin", 85; "id_repeat", 2; "id_tempcall", 25; "it_loop", 30; "i_loop", 4; "id_loopcap", 20; "main_items", 6; "dump", 80; "fault", 4;
             "t_arr", 16; "i_index", 14];
   "records", ["b_nil", 16; "t_rec", 35; "id_agg", 80; "nrecs_max", 3; "i_field", 25; "fault", 12; "nilp", 15;
               "x_new", 40; "rf_rec", 25; "dump", 80; "catch", 20];
-  "arrays", ["b_nil", 16; "t_fun", 12; "t_arr", 35; "id_agg", 80; "i_index", 25; "fault", 14; "it_loop", 14; "dump", 80; "catch", 20;
+  "arrays", ["id_forin", 35; "b_nil", 16; "t_fun", 12; "t_arr", 35; "id_agg", 80; "i_index", 25; "fault", 14; "it_loop", 14; "dump", 80; "catch", 20;
              "rf_arr", 25];
-  "catch", ["id_catchcap", 45; "id_catch", 100; "id_repeat", 3; "catch", 60; "fault", 22; "nilp", 12; "nfuncs_min", 2; "nfuncs_max", 4;
+  "catch", ["id_forin", 25; "id_catchcap", 45; "id_catch", 100; "id_repeat", 3; "catch", 60; "fault", 22; "nilp", 12; "nfuncs_min", 2; "nfuncs_max", 4;
             "i_call", 22; "it_call", 14; "it_loop", 10; "t_rec", 14; "t_arr", 14; "it_func", 10];
   "tailrec", ["id_tail", 100; "f_tail", 0; "f_rec", 30; "id_mutual", 40; "budget_main", 7000; "tail_lo", 150; "tail_hi", 400;
               "nfuncs_max", 2; "main_items", 3; "depth", 2];
   "pipe", ["pp_pipe", 65; "id_pipe", 100; "id_repeat", 2; "i_call", 25; "i_fcall", 10; "it_call", 14; "it_func", 14; "t_fun", 14;
            "id_tail", 25; "id_order", 40; "f_rec", 25; "tail_lo", 30; "tail_hi", 120; "nfuncs_min", 2; "nfuncs_max", 4];
-  "mix", ["id_siblings", 15; "id_catchcap", 15; "id_tempcall", 15; "sib_fwd", 40; "b_nil", 5; "pp_pipe", 8; "id_pipe", 10; "id_deepcap", 15; "id_shadow3", 15; "id_counter", 15; "id_adder", 10; "id_loopcap", 10; "id_reccap", 10; "id_compose", 10; "id_alias", 25;
+  "mix", ["id_forin", 25; "id_siblings", 15; "id_catchcap", 15; "id_tempcall", 15; "sib_fwd", 40; "b_nil", 5; "pp_pipe", 8; "id_pipe", 10; "id_deepcap", 15; "id_shadow3", 15; "id_counter", 15; "id_adder", 10; "id_loopcap", 10; "id_reccap", 10; "id_compose", 10; "id_alias", 25;
           "id_catch", 25; "id_shadow", 15; "id_shadow2", 10; "id_order", 20; "id_agg", 20; "shadow", 15; "catch", 20; "fault", 8;
           "it_func", 10; "t_fun", 12];
 ]
@@ -415,6 +417,7 @@ and gen_int st env d ~op : expr * k =
       (if env.loopd < 2 then w st "i_loop" else 0), (fun () ->
           match gen_loop st env (d - 1) with
           | [IVar (i, z); IExpr l] -> (EBlock [IVar (i, z); IExpr l], KC)
+          | [IExpr l] -> (l, KT)
           | _ -> (ei 0, KT));
     ] @ sources st env TInt d ~op in
     Rng.weighted st.rng choices ()
@@ -690,6 +693,7 @@ and gen_func_run st env d : item list * env =
 
 (* [var i = start; loop] — the counter is bound in the enclosing block and protected *)
 and gen_loop st env d : item list =
+  if pct st "forin" then gen_forin st env d else
   let n = Rng.weighted st.rng [10, 0; 15, 1; 25, 2; 25, 3; 15, 4; 10, Rng.range st.rng 5 7] in
   let i = new_name st env in
   let vi = mkv ~prot:true i TInt BVar env.lvl in
@@ -720,6 +724,36 @@ and gen_loop st env d : item list =
       EDoWhile (EBlock (body @ [IExpr incr]), cond)
     | _ -> EFor (EAssign (ev i, ei start), cond, incr, EBlock body) in
   [IVar (n_of_int i, ei start); IExpr loop]
+
+(* for (i in [a .. b]) body / for (x in [e1, .., en] : int) body: the loop variable is a constant of
+   the body's scope only; small literal or masked bounds; both directions *)
+and gen_forin st env d : item list =
+  let n = Rng.weighted st.rng [15, 1; 25, 2; 25, 3; 20, 4; 15, Rng.range st.rng 5 7] in
+  let i = new_name st env in
+  let vi = mkv ~prot:true i TInt BLet env.lvl in
+  let env_b = { (bind env vi) with mult = env.mult * (max 1 n); loopd = env.loopd + 1;
+                                   block = []; forbid = IS.singleton i; sib = IS.empty; recf = None } in
+  flag st "loop"; flag st "forin";
+  if Rng.pct st.rng 75 then begin
+    let down = Rng.pct st.rng 50 in
+    let lo = Rng.pick st.rng [-3; -1; 0; 0; 1; 2; 10] in
+    let f, t = if down then (lo + n - 1, lo) else (lo, lo + n - 1) in
+    flag st (if down then "forin_down" else "forin_up");
+    (* a bound computed from data: lo + (e &&& m) with m < n keeps the number of iterations <= n *)
+    let masked k =
+      let m = if n > 4 then 3 else if n > 2 then 1 else 0 in
+      EBin (Add, ei k, EBin (BAnd, fst (gen_expr st { env with recf = None } TInt 1 ~op:true), ei m)) in
+    let ef, et =
+      if Rng.pct st.rng 25 then (if down then (masked lo, ei lo) else (ei lo, masked lo))
+      else (ei f, ei t) in
+    let body, _ = gen_block_in st env_b TInt (min d 2) ~items:(1 + Rng.int st.rng 2) in
+    [IExpr (EForInRange (n_of_int i, ef, et, EBlock body))]
+  end else begin
+    let es = List.init n (fun _ -> ei (gen_lit st)) in
+    flag st "forin_arr";
+    let body, _ = gen_block_in st env_b TInt (min d 2) ~items:(1 + Rng.int st.rng 2) in
+    [IExpr (EForInArr (n_of_int i, EArrLit (es, TInt), EBlock body))]
+  end
 
 (* ---- functions -------------------------------------------------------------------------------- *)
 and gen_catches st env_f ret d : (exn * item list) list * item list option =
